@@ -168,7 +168,17 @@ func (n *Node) AnyPart(pred func(p *Part) bool) bool {
 
 // World is what a read sees: the owning root, the Env configs and the
 // resolver tables, in the order they were added.
+// sep is the path separator of the world (default ".").
+func (w *World) sep() string {
+	if w.Sep == "" {
+		return "."
+	}
+	return w.Sep
+}
+
 type World struct {
+	// Sep: the path separator the configurations were built with ("" = ".")
+	Sep string
 	Root      *Node
 	Envs      []*Node
 	Resolvers [][]KV
@@ -242,14 +252,16 @@ func lookupIn(tree *Node, name string) (*Node, bool) {
 
 // lookupInX also reports whether the walk met an expression before the last segment: the library evaluates it
 // and continues in its value (or fails with the expression's failure), which the model does not follow.
-func lookupInX(tree *Node, name string) (*Node, bool, bool) {
-	v, ok := lookupIn0(tree, name)
-	return v, ok, !ok && throughExpr(tree, name)
+func lookupInX(tree *Node, name string) (*Node, bool, bool) { return lookupInSep(tree, name, ".") }
+
+func lookupInSep(tree *Node, name, sep string) (*Node, bool, bool) {
+	v, ok := lookupIn0(tree, name, sep)
+	return v, ok, !ok && throughExpr(tree, name, sep)
 }
 
-func throughExpr(tree *Node, name string) bool {
+func throughExpr(tree *Node, name, sep string) bool {
 	cur := tree
-	for _, seg := range strings.Split(name, ".") {
+	for _, seg := range strings.Split(name, sep) {
 		switch cur.K {
 		case "obj":
 			v := cur.Get(seg)
@@ -272,9 +284,9 @@ func throughExpr(tree *Node, name string) bool {
 	return false
 }
 
-func lookupIn0(tree *Node, name string) (*Node, bool) {
+func lookupIn0(tree *Node, name, sep string) (*Node, bool) {
 	cur := tree
-	for _, seg := range strings.Split(name, ".") {
+	for _, seg := range strings.Split(name, sep) {
 		switch cur.K {
 		case "obj":
 			v := cur.Get(seg)
@@ -313,14 +325,14 @@ func (w *World) lookup(name string) (*Node, *Node, bool) {
 	if w.home != nil {
 		first = w.home
 	}
-	v, ok, through := lookupInX(first, name)
+	v, ok, through := lookupInSep(first, name, w.sep())
 	if through {
 		w.ThroughExpr = true
 	}
 	if ok {
 		for _, e := range w.Envs {
 			if e != first {
-				if _, ok := lookupIn(e, name); ok {
+				if _, ok, _ := lookupInSep(e, name, w.sep()); ok {
 					w.Shadowed = true
 				}
 			}
@@ -334,14 +346,14 @@ func (w *World) lookup(name string) (*Node, *Node, bool) {
 		return v, first, true
 	}
 	for i := len(w.Envs) - 1; i >= 0; i-- {
-		v, ok, through := lookupInX(w.Envs[i], name)
+		v, ok, through := lookupInSep(w.Envs[i], name, w.sep())
 		if through {
 			w.ThroughExpr = true
 		}
 		if ok {
 			w.FromEnv = true
 			for j := 0; j < i; j++ {
-				if _, ok := lookupIn(w.Envs[j], name); ok {
+				if _, ok, _ := lookupInSep(w.Envs[j], name, w.sep()); ok {
 					w.Shadowed = true
 				}
 			}
@@ -597,7 +609,7 @@ func (w *World) evalVar(p Part) (string, error) {
 		if nerr != nil {
 			return "", nerr
 		}
-		if !(len(p.Name) == 1 && !p.Name[0].IsVar) && strings.Contains(name, ".") {
+		if !(len(p.Name) == 1 && !p.Name[0].IsVar) && strings.Contains(name, w.sep()) {
 			w.ComputedDotted = true
 		}
 		return w.refEval(name)
@@ -792,8 +804,18 @@ type GCfg struct {
 	Names    []string
 	NoDollar bool // no '$' in literals (finding D27 open)
 	EnvExprs bool // Env configs may hold expressions
+	// Sep: the path separator of the case ("" = "."): every name the generator writes uses it
+	Sep string
 	// ResolverCfgs: resolvers return NoopConfig / EnvConfig with some values (a keystore hands out raw text)
 	ResolverCfgs bool
+}
+
+// nm spells a name (given with ".") with the separator of the case.
+func (g *GCfg) nm(name string) string {
+	if g.Sep == "" || g.Sep == "." {
+		return name
+	}
+	return strings.ReplaceAll(name, ".", g.Sep)
 }
 
 func (g *GCfg) lit(t *rapid.T) string {
@@ -831,7 +853,7 @@ func (g *GCfg) GenParts(t *rapid.T, depth int, inName bool) []Part {
 		if depth > 0 && rapid.IntRange(0, 2).Draw(t, "isvar") > 0 {
 			ps = append(ps, g.GenVar(t, depth-1))
 		} else if inName {
-			ps = append(ps, Part{Lit: rapid.SampledFrom(g.Names).Draw(t, "nm")})
+			ps = append(ps, Part{Lit: g.nm(rapid.SampledFrom(g.Names).Draw(t, "nm"))})
 		} else {
 			ps = append(ps, Part{Lit: g.lit(t)})
 		}
@@ -844,7 +866,7 @@ func (g *GCfg) GenVar(t *rapid.T, depth int) Part {
 	if depth > 0 && rapid.IntRange(0, 5).Draw(t, "dynname") == 0 {
 		p.Name = []Part{g.GenVar(t, depth-1)}
 	} else {
-		p.Name = []Part{{Lit: rapid.SampledFrom(g.Names).Draw(t, "name")}}
+		p.Name = []Part{{Lit: g.nm(rapid.SampledFrom(g.Names).Draw(t, "name"))}}
 	}
 	p.Op = rapid.SampledFrom([]string{"", "", "", ":", ":+", ":?"}).Draw(t, "op")
 	if p.Op != "" {
@@ -864,7 +886,11 @@ func (g *GCfg) GenLeaf(t *rapid.T, allowExpr bool) *Node {
 	}
 	switch k {
 	case 0:
-		return &Node{K: "str", S: rapid.SampledFrom(strLeaves).Draw(t, "str")}
+		sl := rapid.SampledFrom(strLeaves).Draw(t, "str")
+		if sl == "o.x" || sl == "l.1" {
+			sl = g.nm(sl) // values that are used as names by ${${x}}
+		}
+		return &Node{K: "str", S: sl}
 	case 1:
 		return &Node{K: "uint", U: uint64(rapid.IntRange(0, 3).Draw(t, "u"))}
 	case 2:
@@ -1036,7 +1062,7 @@ func (g *GCfg) GenResolver(t *rapid.T) []KV {
 	var r []KV
 	for _, k := range []string{"r1", "r2", "both", "a", "zz", "o.x"} {
 		if rapid.IntRange(0, 2).Draw(t, "reshas") == 0 {
-			kv := KV{K: k, V: rapid.SampledFrom(resVals).Draw(t, "resval")}
+			kv := KV{K: g.nm(k), V: rapid.SampledFrom(resVals).Draw(t, "resval")}
 			if g.ResolverCfgs {
 				kv.C = rapid.SampledFrom([]int{0, 0, 1, 2}).Draw(t, "rescfg")
 			}
